@@ -64,6 +64,30 @@ void harness (void)
         VH_CHECK ("bilinear.at_most_four_fetches", g_fetches <= 4);
     }
 
+#elif VC_FILTER == 2 && defined (VC_ONEHOT)
+    /* (b-sample2) ONE-HOT kernel: tap (tj, ti) (symbolic) has weight 1.0, all others 0: the result must be exactly the pixel of
+     * the repeated image at (kx + tj, ky + ti), kx = floor (x - (w-1)/2 - e): tap order and row stride of the kernel matrix
+     * and the window alignment for kernels larger than 1x1, without any symbolic product */
+    {
+        VH_IN (vh_u8, in_tj);
+        VH_IN (vh_u8, in_ti);
+        static pixman_fixed_t params[2 + VC_CW * VC_CHT];
+        ss_i64 kx, ky;
+        int i, j;
+        VH_ASSUME (in_tj < VC_CW && in_ti < VC_CHT);
+        params[0] = VC_CW << 16;
+        params[1] = VC_CHT << 16;
+        for (i = 0; i < VC_CHT; i++)
+            for (j = 0; j < VC_CW; j++)
+                params[2 + i * VC_CW + j] = (i == in_ti && j == in_tj) ? 65536 : 0;
+        VH_ASSUME (in_x >= -2147483647 + 2 * 65536 && in_y >= -2147483647 + 2 * 65536);
+        c08_image_init (&img, (pixman_repeat_t) VC_REP, PIXMAN_FILTER_CONVOLUTION, params, 2 + VC_CW * VC_CHT);
+        kx = SS_CONV_FIRST (in_x, VC_CW);
+        ky = SS_CONV_FIRST (in_y, VC_CHT);
+        bits_image_fetch_pixel_convolution (&img, in_x, in_y, fetch_pixel_no_alpha_32, &out, accum_32, reduce_32);
+        VH_CHECK ("conv.one_hot_kernel_fetches_the_documented_tap", out == spec_pixel (VC_REP, kx + in_tj, ky + in_ti));
+    }
+
 #elif VC_FILTER == 2
     {
         C08_IN_ARRAY (vh_i32, in_k, VC_CW * VC_CHT);
